@@ -1,9 +1,10 @@
 package props
 
 import (
-	"free5gclib/nas"
 	"bytes"
 	"fmt"
+	"free5gclib/nas"
+	"free5gclib/nas/nasType"
 
 	"free5gclib/nas/nasMessage"
 	"free5gclib/nas/nasTestpacket"
@@ -29,6 +30,13 @@ func c06messages() [][]byte {
 		nasTestpacket.GetSecurityModeComplete(pattern(3, 30)),
 		nasTestpacket.GetConfigurationUpdateComplete(),
 		nasTestpacket.GetStatus5GMM(0x6f),
+	}
+	// initial NAS messages that carry a NAS message container (TS 24.501 4.4.6): protected like any other message
+	{
+		suciIE := nasType.MobileIdentity5GS{Len: 13, Buffer: suci}
+		msgs = append(msgs, nasTestpacket.GetRegistrationRequest(nasMessage.RegistrationType5GSInitialRegistration, suciIE, nil, nil, nil, pattern(2, 21), nil))
+		sr := nasTestpacket.GetServiceRequest(nasMessage.ServiceTypeSignalling)
+		msgs = append(msgs, append(append([]byte{}, sr...), append([]byte{0x71, 0x00, 0x0b}, pattern(3, 11)...)...))
 	}
 	// eight consecutive lengths, so that every residue of the message length (and of SQN||message) mod 4, 8 and 16 occurs
 	for n := 0; n < 8; n++ {
@@ -60,9 +68,20 @@ func runC06(ctx *Ctx) {
 	}
 	// an attempt that fails inside the protected branch (a message type the encoder does not know): nothing is sent, so
 	// no COUNT may be consumed and the next message carries the COUNT the failed one would have had
+	shortOps := len(ops) // the full product of histories runs over these
 	ops = append(ops, c06op{-1, 2, false})
+	// an attempt that fails in the ciphering step (an algorithm identity the library does not implement), a downlink
+	// message received in between (integrity protected and ciphered; security mode command with a new-context header):
+	// none of them may touch the uplink COUNT
+	ops = append(ops, c06op{-2, 2, false}, c06op{-3, 2, false}, c06op{-4, 3, false})
+	// the special operations are combined with three representative sends in their own product of histories
+	specialFrom, specialTo := shortOps, len(ops)
+	mini := []int{2, 4, 16} // send(msg0,h=3) ; send(msg1,h=1) ; send(msg0,h=4,new context)
+	for i := specialFrom; i < specialTo; i++ {
+		mini = append(mini, i)
+	}
 	// long messages (NAS containers go far beyond 256 and 1024 octets): sent in histories of one and two sends only
-	shortOps := len(ops)
+	longFrom := len(ops)
 	for _, n := range []int{240, 243, 244, 245, 300, 1010, 1013, 1100, 4000} {
 		msgs = append(msgs, nasTestpacket.GetSecurityModeComplete(pattern(3, n)))
 		for h := uint8(1); h <= 4; h++ {
@@ -114,7 +133,31 @@ func runC06(ctx *Ctx) {
 			}
 			rec(nil)
 		}
-		for li := shortOps; li < len(ops); li++ {
+		for _, start := range starts {
+			var recm func(seq []int)
+			recm = func(seq []int) {
+				if len(seq) > 0 {
+					special := false
+					for _, x := range seq {
+						special = special || (x >= specialFrom && x < specialTo)
+					}
+					if special {
+						item++
+						if ctx.Mine(item) {
+							c06history(r, l, msgs, ops, alg, kint, kenc, start, seq)
+						}
+					}
+				}
+				if len(seq) == depth {
+					return
+				}
+				for _, i := range mini {
+					recm(append(seq, i))
+				}
+			}
+			recm(nil)
+		}
+		for li := longFrom; li < len(ops); li++ {
 			for _, start := range []uint32{0, 0xff} {
 				item++
 				if ctx.Mine(item) {
@@ -174,6 +217,47 @@ func c06history(r *report.Report, l *report.Local, msgs [][]byte, ops []c06op, a
 		// model state: (algorithm pair, COUNT the receiver expects next); transition: one send operation from it
 		l.State(c06key(alg, expect, -1))
 		l.Transition(c06key(alg, expect, oi))
+		if op.msg == -2 || op.msg == -3 || op.msg == -4 {
+			what := map[int]string{-2: "ciphering-failure", -3: "downlink-message-received", -4: "downlink-security-mode-command-received"}[op.msg]
+			var ferr error
+			perr := recoverErr(func() {
+				switch op.msg {
+				case -2:
+					saved := ue.CipheringAlg
+					ue.CipheringAlg = 3 // 128-NEA3: not implemented by the library
+					_, ferr = tglib.EncodeNasPduWithSecurity(ue, append([]byte{}, msgs[0]...), 2, true, false)
+					ue.CipheringAlg = saved
+					if ferr == nil {
+						ferr = fmt.Errorf("harness: NEA3 did not fail")
+					} else {
+						ferr = nil
+					}
+				case -3:
+					dl := (ue.DLCount.Get() + 1) & 0xffffff
+					wire := refnas.Protect([]byte{0x7e, 0x00, 0x54}, 2, sc, dl, refnas.DirDownlink)
+					_, ferr = tglib.NASDecode(ue, 2, wire)
+				case -4:
+					wire := refnas.Protect([]byte{0x7e, 0x00, 0x5d, 0x02, 0x00, 0x02, 0x80, 0xa0}, 3, sc, 0, refnas.DirDownlink)
+					_, ferr = tglib.NASDecode(ue, 3, wire)
+				}
+			})
+			if short {
+				desc += " " + what
+			}
+			if perr != nil {
+				r.Violate("protect/panic-on-"+what, desc, perr.Error(), seq)
+				break
+			}
+			if ferr != nil && op.msg != -2 {
+				r.Violate("protect/"+what+"/not-accepted", desc, ferr.Error(), seq)
+				break
+			}
+			if ue.ULCount.Get() != expect {
+				r.Violate("protect/uplink-COUNT-changed-by-"+what, desc, fmt.Sprintf("step %d: UL COUNT went from %#x to %#x although no uplink message was sent", step, expect, ue.ULCount.Get()), seq)
+				break
+			}
+			continue
+		}
 		if op.msg < 0 {
 			bad := nas.NewMessage()
 			bad.GmmMessage = nas.NewGmmMessage()
@@ -203,7 +287,9 @@ func c06history(r *report.Report, l *report.Local, msgs [][]byte, ops []c06op, a
 		plain := msgs[op.msg]
 		var out []byte
 		var err error
-		perr := recoverErr(func() { out, err = tglib.EncodeNasPduWithSecurity(ue, append([]byte{}, plain...), op.h, true, op.newCtx) })
+		perr := recoverErr(func() {
+			out, err = tglib.EncodeNasPduWithSecurity(ue, append([]byte{}, plain...), op.h, true, op.newCtx)
+		})
 		cs := desc
 		if !short {
 			cs = fmt.Sprintf("%s linear history of %d sends, step %d (msg%d,h=%d)", desc, len(seq), step, op.msg, op.h)
